@@ -9,5 +9,6 @@ CONSTANTS
   Panic = {"error"}
   BadInit = {"error"}
   PostShutdown = {"error"}
+  CancelDesign = "flag"
   SyncWire = TRUE
 INVARIANTS TypeOK ExactlyOne AtMostOne NoOrphan NoLeak CancelAnswer NeverDead Emit
